@@ -435,7 +435,10 @@ def authExchange (v : Verdicts) (ao : AuthOracle) (s : St) (mech : Bytes) (initi
         match challenge ao none st' with
         | .error e => .error e
         | .ok (.error code, evs2, st'') => .ok (s, evs ++ evs2 ++ [.reply code], .continue_, st'')
-        | .ok (.ok pass, evs2, st'') => .ok (done (user, pass, user) (evs ++ evs2) st'')   -- pysasl: empty authzid = authcid
+        | .ok (.ok pass, evs2, st'') =>
+          -- pysasl decodes both answers as UTF-8 once it has them: bytes that are not UTF-8 are malformed credentials (501)
+          if !utf8 user || !utf8 pass then .ok (s, evs ++ evs2 ++ [.reply 501], .continue_, st'')
+          else .ok (done (user, pass, user) (evs ++ evs2) st'')   -- pysasl: empty authzid = authcid
 
 structure Run where
   events : List Event
